@@ -1,6 +1,8 @@
 //! Correspondence harness: executes the line protocol against the real zvt code.
 mod codec;
 mod gen_dispatch;
+mod seq;
+mod transport;
 use std::io::{BufRead, Write};
 use std::sync::atomic::Ordering;
 mod alloc;
@@ -30,6 +32,20 @@ fn handle(line: &str) -> String {
             Some(b) => gen_dispatch::parse(en, &b).unwrap_or("bad-op".into()),
             None => "bad-op".into(),
         },
+        ["read", en, chunks] => {
+            let cs: Option<Vec<Vec<u8>>> = chunks.split('|').map(codec::hex_dec).collect();
+            match cs {
+                Some(cs) => gen_dispatch::read(en, cs).unwrap_or("bad-op".into()),
+                None => "bad-op".into(),
+            }
+        }
+        ["seq", name, input, script] => {
+            let items: Option<Vec<Vec<u8>>> = if *script == "." { Some(vec![]) } else { script.split(',').map(codec::hex_dec).collect() };
+            match (codec::hex_dec(input), items) {
+                (Some(i), Some(items)) => gen_dispatch::seq(name, &i, items).unwrap_or("bad-op".into()),
+                _ => "bad-op".into(),
+            }
+        }
         _ => "bad-op".into(),
     }
 }
